@@ -79,7 +79,7 @@ def compact(number):
 def validate(number):
     """Check if the number is a valid BIS Number."""
     number = compact(number)
-    if not isdigits(number) or int(number) <= 0:
+    if not isdigits(number) or not number.strip('0'):
         raise InvalidFormat()
     if len(number) != 11:
         raise InvalidLength()
